@@ -141,6 +141,10 @@ def is_instance(x, name):
     return type(x).__name__ == name
 
 
+def same_value(a, b):
+    return type(a) is type(b) and a == b
+
+
 def forall_int(lo, hi, p):
     return all(p(j) for j in range(lo, hi))
 
